@@ -2,12 +2,9 @@
     binary64 / binary32 (single-NaN variant), round to nearest even.          *)
 
 From Coq Require Import ZArith List Bool.
-From Flocq Require Import Core.
-From Flocq Require BinarySingleNaN Binary Bits.
+From Flocq Require Import Core BinarySingleNaN.
+From Flocq Require Binary Bits.
 From Rubato.Model Require Import Num.
-
-Module BS := BinarySingleNaN.
-Import BS.
 
 Definition f64 := binary_float 53 1024.
 Definition f32 := binary_float 24 128.
